@@ -82,6 +82,28 @@ func (r *electrumTxWatcher) StartWatchingTxs() error {
 		}
 	}
 
+	// Observers are notified from a goroutine of their own. A callback can run
+	// for a long time (the confirmation callback of a swap pays the claim
+	// invoice before it returns); meanwhile this watcher has to keep taking
+	// new headers, because the height it caches is what that very payment
+	// checks its deadline against and what other swaps are waiting for.
+	notify := make(chan struct{}, 1)
+	go func() {
+		for {
+			select {
+			case <-ctx.Done():
+				return
+			case <-notify:
+				r.mu.Lock()
+				height := r.blockHeight
+				r.mu.Unlock()
+				if err := r.subscriber.Update(ctx, height); err != nil {
+					log.Infof("Error notifying tx observers: %v", err)
+				}
+			}
+		}
+	}()
+
 	go func() {
 		defer r.resubscribeTicker.Stop()
 		for {
@@ -103,10 +125,11 @@ func (r *electrumTxWatcher) StartWatchingTxs() error {
 					continue
 				}
 				log.Debugf("New block received. block height:%d", height)
-				err = r.subscriber.Update(ctx, height)
-				if err != nil {
-					log.Infof("Error notifying tx observers: %v", err)
-					continue
+				select {
+				case notify <- struct{}{}:
+				default:
+					// a notification is pending already; it will use the
+					// newest height
 				}
 			case <-r.resubscribeTicker.C:
 				// The old subscription topic will remain in the memory
